@@ -15,6 +15,7 @@ mod common;
 mod c20;
 mod macroh;
 mod serdeh;
+mod probe;
 mod mapped;
 mod canon;
 mod ueq;
@@ -68,6 +69,24 @@ fn real_main() {
     let args: Vec<String> = std::env::args().collect();
     if args.len() == 5 && args[1] == "deepchild" {
         println!("{}", c03::deep_child(&args[2], args[3].parse().unwrap_or(0), args[4] == "1"));
+        std::process::exit(0);
+    }
+    if args.len() == 3 && args[1] == "retable" {
+        // re-derive the dependency tables embedded in request lines (number canonicalizations,
+        // float texts) with the implementation as it is now: corpus lines collected on a changed
+        // tree carry that tree's tables
+        let text = std::fs::read_to_string(&args[2]).unwrap_or_default();
+        for line in text.lines() {
+            let a: Vec<&str> = line.split(' ').collect();
+            let fixed = match (a.first().copied(), a.len()) {
+                (Some("canon"), 3) => common::parse_value(a[2]).map(|v| canon::request_for(&v)),
+                (Some("serde"), 5) if a[1] == "de" => common::parse_value(a[3]).map(|v| format!("serde de {} {} {}", a[2], a[3], probe::num_table(&v))),
+                (Some("serde"), 5) if a[1] == "rt" => probe::parse_sd(a[3]).and_then(|d| json_syntax::to_value(&d).ok()).map(|v| format!("serde rt {} {} {}", a[2], a[3], probe::num_table(&v))),
+                (Some("serde"), 4) if a[1] == "fromvalm" => common::parse_value(a[2]).map(|v| format!("serde fromvalm {} {}", a[2], probe::num_table(&v))),
+                _ => None,
+            };
+            println!("{}", fixed.unwrap_or_else(|| line.to_string()));
+        }
         std::process::exit(0);
     }
     if args.len() < 6 {
